@@ -35,6 +35,10 @@ pub enum TOp {
     AddEnd { v: VehicleIdx, cycle: usize },
     Move { v: VehicleIdx, cycle: usize },
     ThreeOpt { cycle: usize, i: usize, j: usize, k: usize },
+    /// several vehicles changed in one schedule modification: the operations are applied one by
+    /// one against the pre-batch tours plus the tours already updated in this batch (the way
+    /// Schedule::update_transitions_and_violation_fast drives the transition)
+    Batch(Vec<TOp>),
 }
 
 impl TOp {
@@ -48,6 +52,7 @@ impl TOp {
             TOp::AddEnd { v, cycle } => format!("add_vehicle_at_the_end({},{})", v, cycle),
             TOp::Move { v, cycle } => format!("move_vehicle({},{})", v, cycle),
             TOp::ThreeOpt { cycle, i, j, k } => format!("replace_cycle({},three_opt({},{},{}))", cycle, i, j, k),
+            TOp::Batch(ops) => format!("batch[{}]", ops.iter().map(|o| o.name()).collect::<Vec<_>>().join("; ")),
         }
     }
     pub fn kind(&self) -> &'static str {
@@ -59,6 +64,7 @@ impl TOp {
             TOp::AddEnd { .. } => "add_vehicle_at_the_end",
             TOp::Move { .. } => "move_vehicle",
             TOp::ThreeOpt { .. } => "three_opt+replace_cycle",
+            TOp::Batch(_) => "batch_update",
         }
     }
 }
@@ -138,8 +144,71 @@ pub fn apply(b: &Bridge, w: &World, op: &TOp) -> World {
             let c = w.tr.get_cycle(*cycle).three_opt(*i, *j, *k, &w.tours, net);
             n.tr = w.tr.replace_cycle(*cycle, c);
         }
+        TOp::Batch(ops) => {
+            // new tours first, so that references into them can be handed out
+            let mut new_tours: Vec<(VehicleIdx, Tour)> = Vec::new();
+            for o in ops {
+                match o {
+                    TOp::UpdateStart { v, depot } => new_tours.push((*v, w.tours.get(v).unwrap().replace_start_depot(b.idx(N::SD(*depot))).unwrap())),
+                    TOp::UpdateEnd { v, depot } => new_tours.push((*v, w.tours.get(v).unwrap().replace_end_depot(b.idx(N::ED(*depot))).unwrap())),
+                    _ => {}
+                }
+            }
+            let mut updated: ImMap<VehicleIdx, &Tour> = ImMap::new();
+            let mut tr = w.tr.clone();
+            for o in ops {
+                match o {
+                    TOp::UpdateStart { v, .. } | TOp::UpdateEnd { v, .. } => {
+                        let nt = &new_tours.iter().find(|(x, _)| x == v).unwrap().1;
+                        tr = tr.update_vehicle(*v, nt, &updated, &w.tours, net);
+                        updated.insert(*v, nt);
+                    }
+                    TOp::Remove { v } => {
+                        tr = tr.remove_vehicle(*v, &updated, &w.tours, net);
+                        n.members.remove(v);
+                    }
+                    _ => panic!("unsupported operation inside a batch"),
+                }
+            }
+            n.tr = tr;
+            drop(updated);
+            for (v, t) in new_tours.iter() {
+                n.tours.insert(*v, t.clone());
+            }
+        }
     }
     n
+}
+
+/// batches of two distinct member vehicles (ordered), four update variants each, plus
+/// (update, remove) and (remove, update)
+pub fn batch_ops(b: &Bridge, w: &World) -> Vec<TOp> {
+    let ov = b.inst.overflow();
+    let variants = |v: VehicleIdx| -> Vec<TOp> {
+        vec![
+            TOp::UpdateStart { v, depot: 1 },
+            TOp::UpdateEnd { v, depot: 1 },
+            TOp::UpdateStart { v, depot: ov },
+            TOp::UpdateEnd { v, depot: 0 },
+        ]
+    };
+    let members: Vec<VehicleIdx> = w.members.iter().copied().collect();
+    let mut ops = Vec::new();
+    for &a in &members {
+        for &c in &members {
+            if a == c {
+                continue;
+            }
+            for x in variants(a) {
+                for y in variants(c) {
+                    ops.push(TOp::Batch(vec![x.clone(), y]));
+                }
+                ops.push(TOp::Batch(vec![x.clone(), TOp::Remove { v: c }]));
+                ops.push(TOp::Batch(vec![TOp::Remove { v: c }, x.clone()]));
+            }
+        }
+    }
+    ops
 }
 
 #[derive(Default, Clone, Copy)]
@@ -341,9 +410,17 @@ impl<'a> Dfs<'a> {
                         }
                         self.violations += 1;
                     }
-                } else if depth + 1 < self.max_depth {
-                    for o in applicable(self.b, &n, self.all) {
-                        self.step(&n, &o, path, reg, depth + 1);
+                } else {
+                    // batches are judged right after they are applied: try all of them as leaves
+                    if !matches!(op, TOp::Batch(_)) && depth < 3 {
+                        for o in batch_ops(self.b, &n) {
+                            self.step(&n, &o, path, reg, self.max_depth);
+                        }
+                    }
+                    if depth + 1 < self.max_depth {
+                        for o in applicable(self.b, &n, self.all) {
+                            self.step(&n, &o, path, reg, depth + 1);
+                        }
                     }
                 }
             }
@@ -507,6 +584,21 @@ fn random_case(ctx: &Ctx, idx: u64, out: &mut CaseOut) {
         let ops = applicable(&b, &w, &ids);
         // bias away from new_fast and three_opt floods
         let op = loop {
+            if w.members.len() >= 2 && rng.chance(1, 6) {
+                // a batch of 2-4 distinct vehicles
+                let mut ms: Vec<VehicleIdx> = w.members.iter().copied().collect();
+                rng.shuffle(&mut ms);
+                ms.truncate(rng.usize(2, ms.len().min(4)));
+                let subs: Vec<TOp> = ms
+                    .iter()
+                    .map(|&v| match rng.below(5) {
+                        0 => TOp::Remove { v },
+                        1 | 2 => TOp::UpdateStart { v, depot: rng.usize(0, nd - 1) },
+                        _ => TOp::UpdateEnd { v, depot: rng.usize(0, nd - 1) },
+                    })
+                    .collect();
+                break TOp::Batch(subs);
+            }
             let o = rng.pick(&ops).clone();
             match o {
                 TOp::NewFast if !rng.chance(1, 10) => continue,
